@@ -245,6 +245,12 @@ class DSDLDefinition(ReadableDSDLFile):
 
         started_at = time.monotonic()
 
+        # If the handler can be bound to a file, bind it to this one: a handler inherited from a referring
+        # definition would otherwise report the @print output of this file under the referrer's path.
+        rebind = getattr(print_output_handler, "for_file", None)
+        if callable(rebind):
+            print_output_handler = rebind(self.file_path)
+
         # Remove the target definition from the lookup list in order to prevent
         # infinite recursion on self-referential definitions.
         lookup_definitions = list(filter(lambda d: d != self, lookup_definitions))
